@@ -213,7 +213,7 @@ func (b *backendConfigSessionHandler) handlePluginMessage(pc *proto.PacketContex
 		_ = b.serverConn.player.WritePacket(plugin.RewriteMinecraftBrand(p,
 			b.serverConn.player.Protocol()))
 	} else {
-		bytes := pc.Payload
+		bytes := p.Data // the message body, not the raw packet
 		id, ok := b.proxy().ChannelRegistrar().FromID(p.Channel)
 		if !ok {
 			b.forwardToPlayer(pc, nil)
@@ -230,7 +230,7 @@ func (b *backendConfigSessionHandler) handlePluginMessage(pc *proto.PacketContex
 			data:       bytes,
 		}, func(pme *PluginMessageEvent) {
 			if pme.Allowed() && b.serverConn.active() {
-				b.forwardToPlayer(pc, &plugin.Message{
+				b.forwardToPlayer(nil, &plugin.Message{
 					Channel: p.Channel,
 					Data:    pme.Data(),
 				})
